@@ -607,6 +607,7 @@ func (fe *FnExec) doMakeInterface(st *State, x *ssa.MakeInterface) Val {
 		}
 	}
 	fe.assume(tEq(sx("dyn", ref), tInt(int64(id))), "dynamic type "+typeName(ct))
+	fe.boxType[ref] = ct
 	return RefV{ref}
 }
 
